@@ -42,6 +42,8 @@ impl Interleaver {
         S: Data<Elem = T>,
     {
         assert_eq!(codeword.len() % self.columns, 0);
+        // reshaping needs a contiguous array; strided or reversed views are copied
+        let codeword = codeword.as_standard_layout();
         let a2 = codeword
             .view()
             .into_shape_with_order((self.columns, codeword.len() / self.columns))
